@@ -256,7 +256,7 @@ def c06(sc, V):
         if s.snap.blocked:
             break
         reps = s.of("rep")
-        if s.kind() in ("req", "raw") and not closed:
+        if s.kind() in ("req", "raw", "xreq") and not closed:
             cid = "c%d" % (s.op[2] if len(s.op) > 2 else 0)
             if s.kind() == "raw":
                 from harness.coreenc import parse_raw
